@@ -31,7 +31,7 @@ CONTAINERS = ('f64', 'i64', 'list')
 P = np.array([0.3, 0.05])
 # auxiliary array arguments (periods, shifts, travel times, query points ...): deliberately unsorted where the
 # function allows it, shared by all probes, snapshot-checked around every call and restored if a call modified them
-AUX0 = {'P': [0.3, 0.05], 'P3': [0.5, 0.1, 0.3], 'P4': [0.05, 0.1, 0.4, 0.8], 'SF4': [0.5, 0.9, 3.0, 8.0], 'SH': [2, -1, 0], 'SH2': [2, 0], 'SH3': [2, 1], 'TT': [0.13, 0.05], 'TS': [0.2, 0.1],
+AUX0 = {'P': [0.3, 0.05], 'P0': [0.0, 0.3, 0.05], 'P3': [0.5, 0.1, 0.3], 'P4': [0.05, 0.1, 0.4, 0.8], 'SF4': [0.5, 0.9, 3.0, 8.0], 'SH': [2, -1, 0], 'SH2': [2, 0], 'SH3': [2, 1], 'TT': [0.13, 0.05], 'TS': [0.2, 0.1],
         'XQ': [1.5, 0.5], 'SF': [1.0, 0.5], 'NC': [5.0], 'B': [0.34, 0.1], 'CUTS': [0.5, 2.0], 'UR': [1., .8], 'DR': [.5, 1.], 'TRIM_TT': [0.2, 0.1]}
 # a second menu: every array of length >= 3 keeps its length and its end values but changes inside (an answer must not depend on
 # what an earlier call with a look-alike argument computed)
@@ -214,6 +214,9 @@ REG = [
     ('sdof.true_response_spectra', 2, lambda x, y: sdof.true_response_spectra(x, 0.1, AUX['P'], 0.05)),
     ('sdof.single_elastic_response', 2, lambda x, y: sdof.single_elastic_response(x, 0.1, 0.3, 0.05)),
     ('sdof.response_series(4 periods)', 2, lambda x, y: sdof.response_series(x, 0.1, AUX['P4'], 0.05)),
+    ('sdof.response_series(leading zero period)', 2, lambda x, y: sdof.response_series(x, 0.1, AUX['P0'], 0.05)),
+    ('sdof.pseudo_response_spectra(leading zero period)', 2, lambda x, y: sdof.pseudo_response_spectra(x, 0.1, AUX['P0'], 0.05)),
+    ('sdof.true_response_spectra(leading zero period)', 2, lambda x, y: sdof.true_response_spectra(x, 0.1, AUX['P0'], 0.05)),
     ('sdof.pseudo_response_spectra(4 periods)', 2, lambda x, y: sdof.pseudo_response_spectra(x, 0.1, AUX['P4'], 0.05)),
     ('frequency.calc_smooth_fa_spectrum(4 targets)', 3, lambda x, y: frequency.calc_smooth_fa_spectrum(np.arange(len(x)) * 0.5, x, AUX['SF4'])),
     ('frequency.calc_smoothing_matrix_konno_1998(4 targets)', 3, lambda x, y: frequency.calc_smoothing_matrix_konno_1998(np.arange(len(x)) * 0.5, AUX['SF4'])),
@@ -236,6 +239,7 @@ REG = [
     ('pc.get_peak_array_indices(max)', 2, lambda x, y: pc.get_peak_array_indices(x, 'max')),
     ('pc.get_zero_crossings_array_indices', 2, lambda x, y: pc.get_zero_crossings_array_indices(x)),
     ('pc.get_zero_crossings_array_indices(tol)', 2, lambda x, y: pc.get_zero_crossings_array_indices(x, tol=0.5)),
+    ('pc.get_zero_crossings_array_indices(tol above the smallest level)', 2, lambda x, y: pc.get_zero_crossings_array_indices(x, tol=1.5)),
     ('pc.get_switched_peak_array_indices', 2, lambda x, y: pc.get_switched_peak_array_indices(x)),
     ('pc.get_switched_peak_indices(array)', 2, lambda x, y: pc.get_switched_peak_indices(x)),
     ('pc.determine_peaks_only_delta_series', 2, lambda x, y: pc.determine_peaks_only_delta_series(x)),
@@ -465,7 +469,7 @@ def build(tier, seed):
         'bounds': {'mutator_depth': depth, 'max_len': L, 'alphabet': [-1, 0, 2], 'registry_array_functions': len(REG),
                    'registry_object_functions': len(OBJ), 'excluded': EXCLUDE, 'uncovered_public_callables': uncovered()},
         'required_classes': ['A:constructor', 'A:reset_values', 'A:list', 'A:i64', 'A:transition-changed-values', 'A-cluster:time_match-shifted',
-                             'B:returned', 'B:raised-both-times', 'B:list-input', 'B:int-input', 'B:history', 'B:A-B-A'],
+                             'B:returned', 'B:raised-both-times', 'B:list-input', 'B:int-input', 'B:history', 'B:A-B-A', 'B:A-B-A-records'],
         'assumptions': ['purity is decided for the functions in the explicit registry; public callables in neither the registry nor the exclusion '
                         'list are reported under bounds.uncovered_public_callables',
                         'a function that raises for an input must raise again on the second call and still leave its input unchanged'],
@@ -659,7 +663,24 @@ def _aliases_input(res, args):
     return any(np.shares_memory(a, b) for a in outs for b in ins if a.size and b.size)
 
 
-def check_call(r, name, fn, args, snap_of0, sub):
+POISON = 7.7e77
+
+
+def _poison(res):
+    """Between two identical calls the freed memory of result-sized blocks is filled with a sentinel: a function that returns memory it
+    never wrote (np.empty and a recurrence that skips a row) then does not return the same result again.  Best effort (the allocator
+    decides which block it hands out); never a source of false alarms."""
+    junk = []
+    for a_ in _arrays_of(res, []):
+        for _ in range(3):
+            try:
+                junk.append(np.full(a_.shape, POISON if a_.dtype.kind in 'fc' else 119, dtype=a_.dtype))
+            except Exception:
+                pass
+    del junk
+
+
+def check_call(r, name, fn, args, snap_of0, sub, alt_args=None):
     """one purity probe: snapshot, call, compare, call again, compare results"""
     def snap_of():
         return snap_of0(), aux_snapshot()
@@ -668,6 +689,8 @@ def check_call(r, name, fn, args, snap_of0, sub):
     res = []
     for rep in range(2):
         try:
+            if rep == 1 and res and res[0][0] == 'ok':
+                _poison(res[0][1])
             out = fn(*args)
             if rep == 0 and not name.startswith(EXEMPT_SCRIBBLE):
                 # compare the second call with a private copy of the first result, after overwriting the first result in place:
@@ -726,6 +749,24 @@ def check_call(r, name, fn, args, snap_of0, sub):
                        'values) was used in the call before' % name, observed=seq[3][1], expected=seq[1][1])
         finally:
             set_aux('A')
+    # A-B-A over the main argument: the same call after an intervening call on another record of the same length and type
+    # (process-level state that survives between calls and is keyed by anything but the argument's content)
+    if alt_args is not None and res[0][0] == 'ok' and res[1][0] == 'ok':
+        r.evals += 2
+        try:
+            fn(*alt_args)
+        except Exception:   # noqa
+            pass
+        try:
+            third = ('ok', copy.deepcopy(fn(*args)))
+        except Exception as e:   # noqa
+            third = ('exc', type(e).__name__)
+        r.n_cmp += 1
+        r.cls('B:A-B-A-records')
+        if third[0] != 'ok' or not bits_equal(res[0][1], third[1]):
+            r.fail('purity.not-repeatable', dict(sub, sequence='f(A), f(A), f(B), f(A)'),
+                   '%s returns a different result for the same argument after an intervening call with another argument of the same length' % name,
+                   observed=third[1], expected=res[0][1])
     r.n_cmp += 1
     if res[0][0] != res[1][0]:
         r.fail('purity.not-repeatable', sub, '%s: first call %s, second call %s' % (name, res[0][0], res[1][0]))
@@ -750,7 +791,10 @@ def run_B(case, r):
                 x = container(rec, kind)
                 y = container(rec[::-1], kind)
                 r.states += 1
-                check_call(r, name, fn, (x, y), lambda: (snapshot(x), snapshot(y)), {'fn': name, 'w': w, 'container': kind})
+                rec_b = [float(v) for v in rec[::-1]]
+                rec_b = [2 - v for v in rec_b] if rec_b == [float(v) for v in rec] else rec_b        # palindromes: mirror the levels instead
+                check_call(r, name, fn, (x, y), lambda: (snapshot(x), snapshot(y)), {'fn': name, 'w': w, 'container': kind},
+                           alt_args=(container([int(v) for v in rec_b], kind), container(rec, kind)))
             for name, minlen, fn in OBJ:
                 rec = tile(w, minlen)
                 x = container(rec, kind)
